@@ -22,6 +22,7 @@ Proof.
   - right. apply IH. exact H2.
   - right. apply IH. exact H2.
   - right. apply IH. exact H2.
+  - right. apply IH. exact H2.
 Qed.
 
 Lemma own_step w i : disc_inv w -> own_inv w -> own_inv (step w i).
@@ -70,6 +71,10 @@ Proof.
     exists tj. simpl. split; [rewrite nth_error_upd_other by exact Ne; exact Hj|exact Hhj].
   - apply Keep. reflexivity.
   - destruct (c (mreg t)); apply Keep; reflexivity.
+  - intros l j Hl. simpl in Hl. destruct (HO l j Hl) as [tj [Hj Hhj]].
+    destruct (Nat.eq_dec i j) as [<-|Ne].
+    + eexists. simpl. split; [eapply nth_error_upd_same; eauto|]. simpl. congruence.
+    + exists tj. simpl. split; [rewrite nth_error_upd_other by exact Ne; exact Hj|exact Hhj].
   - intros l j Hl. simpl in Hl. destruct (HO l j Hl) as [tj [Hj Hhj]].
     destruct (Nat.eq_dec i j) as [<-|Ne].
     + eexists. simpl. split; [eapply nth_error_upd_same; eauto|]. simpl. congruence.
